@@ -160,7 +160,7 @@ class Coeff(Part):
 
 # ------------------------------------------------------------------ histories
 
-PARAMS = [('PQ', 'p0', 0, 2.5), ('Line', 'x', 0, 0.03), ('Line', 'b', 1, 0.05), ('PV', 'v0', 2, 1.02),
+PARAMS = [('PQ', 'p0', 0, 2.3), ('Line', 'x', 0, 0.03), ('Line', 'b', 1, 0.05), ('PV', 'v0', 2, 1.02),
           ('GENCLS', 'M', 2, 5.0), ('GENCLS', 'D', 3, 2.0), ('PV', 'p0', 4, 3.1)]
 
 OPS = ['alter0', 'alter1', 'altervin0', 'galter0', 'set0', 'alterM', 'altervinM', 'pflow', 'tdsinit', 'tdsrun', 'reset', 'json',
